@@ -231,10 +231,20 @@ def gen_dtc(inv, base, dids, rnd, nrec_choices):
         while len(s) < n:
             s.add(rnd.randrange(1, 1 << 24))
         return list(s)
+
+    def ids0(n):
+        """... one of them possibly the DTC number 0x000000: a record whose number is 0 but whose other byte is not is a record, not padding"""
+        l = ids(n)
+        if l and rnd.random() < 0.4:
+            l[rnd.randrange(len(l))] = 0
+        return l
+
+    def companion(i):
+        return rnd.randrange(256) if i else rnd.randrange(1, 256)
     for n in nrec_choices:
         if sub in (0x02, 0x0A, 0x0B, 0x0C, 0x0D, 0x0E, 0x0F, 0x13, 0x15, 0x17):
             sa = rnd.randrange(256)
-            recs = [(i, rnd.randrange(256)) for i in ids(n)]
+            recs = [(i, companion(i)) for i in ids0(n)]
             body = b''.join(u(3, i) + bytes([s]) for i, s in recs)
             hdr = bytes([0x59, sub]) + (bytes([memsel]) if sub == 0x17 else b'')
             out.append((hdr + bytes([sa]) + body, dtcdata(sub, memsel if sub == 0x17 else -1, sa, dtcs=[dtc_render(i, s) for i, s in recs]), 4, 'dtc+status x%d' % n))
@@ -250,11 +260,11 @@ def gen_dtc(inv, base, dids, rnd, nrec_choices):
             out.append((bytes([0x59, sub, sa, fmt]) + u(2, cnt), dtcdata(sub, sa=sa, fmt=fmt, count=cnt), None, 'number of dtc'))
             break
         elif sub == 0x14:
-            recs = [(i, rnd.randrange(256)) for i in ids(n)]
+            recs = [(i, companion(i)) for i in ids0(n)]
             out.append((bytes([0x59, sub]) + b''.join(u(3, i) + bytes([c]) for i, c in recs), dtcdata(sub, dtcs=[dtc_render(i, fault=c) for i, c in recs]), 4, 'fault counters x%d' % n))
         elif sub == 0x03:
-            pool = ids(max(1, n))
-            pairs = [(rnd.choice(pool), rnd.randrange(256)) for _ in range(n)]
+            pool = ids0(max(1, n))
+            pairs = [(i, companion(i)) for i in (rnd.choice(pool) for _ in range(n))]
             order, m = [], {}
             for i, r in pairs:
                 if i not in m:
